@@ -224,6 +224,11 @@ func (in *Interp) jvalOf(v Value, t types.Type) *JVal {
 			return &JVal{kind: 'f', f: f}
 		case u.Info()&types.IsInteger != 0:
 			it := x.(*Term)
+			if fb, ok := tt.floatOfTruncated(it); ok {
+				// an int64 obtained from a float: its decimal text reads back as that integer
+				in.path.finite[fb.id] = true
+				return &JVal{kind: 'f', f: tt.FpOfBits(fb)}
+			}
 			if !it.IsConst() {
 				in.requireSmallInt(it)
 			}
